@@ -235,7 +235,8 @@ async def _caller(sim, cspec, cmds, rec):
                     continue
                 elif c["k"] == "power":
                     # the interface's bus power supply switched inside the caller's own transaction
-                    await d.power_supply(bool(c.get("on", True)), in_transaction=True)
+                    kwp = {"exceptions": cspec["exceptions"]} if "exceptions" in cspec else {}
+                    await d.power_supply(bool(c.get("on", True)), in_transaction=True, **kwp)
                 else:
                     if cspec.get("raise_at") == i:
                         raise ScriptedError("scripted failure at step %d" % i)
